@@ -166,11 +166,15 @@ def work(ident, prop, tier, tree):
             n_ref = 0
             if r2.error is None:
                 # a canary only has to be refuted once: post obligations first, short budget
-                for o in sorted(r2.obligations, key=lambda o: 0 if o.kind == "post" else 1):
-                    if o.status is None:
-                        discharge(o, 5000)
-                    if o.status == "refuted":
-                        n_ref += 1
+                # (two passes: a short budget first; under load a second, longer one before the canary counts as missed)
+                for budget in (5000, 40000):
+                    for o in sorted(r2.obligations, key=lambda o: 0 if o.kind == "post" else 1):
+                        if o.status is None or (o.status == "unknown" and budget > 5000):
+                            discharge(o, budget)
+                        if o.status == "refuted":
+                            n_ref += 1
+                            break
+                    if n_ref:
                         break
             out["canaries"].append({"label": label, "refuted": n_ref, "error": r2.error})
         out["seconds"] = round(time.time() - t0, 3)
